@@ -1430,6 +1430,8 @@ static int cfg_parse_internal(cfg_t *cfg, int level, int force_state, cfg_opt_t 
 					break;
 				}
 
+				if (!*cfg_yylval)	/* cfg_getopt() does not report an empty name */
+					cfg_error(cfg, _("no such option '%s'"), cfg_yylval);
 				goto error;
 			}
 
